@@ -142,15 +142,18 @@ impl TreeNodeWithPreviousValue {
         // our "target_epoch" may point to some older data. Therefore we may need to load a previous
         // version of this node.
         if self.latest_node.last_epoch > target_epoch {
-            if let Some(previous_node) = &self.previous_node {
-                Ok(previous_node.clone())
-            } else {
-                // no previous, return not found
-                Err(StorageError::NotFound(format!(
+            match &self.previous_node {
+                // the previous value is only usable if it is not itself newer than the target
+                // epoch (a reader may be more than one epoch behind the stored record)
+                Some(previous_node) if previous_node.last_epoch <= target_epoch => {
+                    Ok(previous_node.clone())
+                }
+                // no (usable) previous, return not found
+                _ => Err(StorageError::NotFound(format!(
                     "TreeNode {:?} at epoch {}",
                     NodeKey(self.label),
                     target_epoch
-                )))
+                ))),
             }
         } else {
             // Otherwise the currently targeted epoch just points to the most up-to-date value, retrieve that
